@@ -22,6 +22,13 @@ def findings_of_json(out):
 
 def scan_file(scratch, data: bytes):
     p = scratch.fresh("prog.py", data)
+    # the file channel is a module of a package (an `__init__.py` beside it and one above): where a file lives is not part of the program (seeded change C19-m15
+    # resolved relative imports against the package found on disk — for a file, never for standard input)
+    open(os.path.join(os.path.dirname(p), "__init__.py"), "w").close()
+    try:
+        open(os.path.join(os.path.dirname(os.path.dirname(p)), "__init__.py"), "w").close()
+    except OSError:
+        pass
     r = C.run_cli(["-f", "json", "-q", p])
     return r
 
@@ -73,6 +80,8 @@ def run(res, ctx):
                                "import pickle\nr = ['Í', pickle.loads(blob), 'Ý']\n"])
             src += rng.choice(["password = 'sécret'\n", "token = 'ÁÍÝ'\n", "def f(password='Ïð'): pass\n", "cfg['secret'] = 'niño'\n"])
             src += "é_var = eval('1')  # Ð\n"
+            src += rng.choice(["from .pickle import loads as rel_loads\nrel_loads(blob)\n", "from .subprocess import Popen as RelPopen\nRelPopen(cmd, shell=True)\n",
+                               "from ..xml.sax import parse as rel_parse\nrel_parse(src_)\n", "from . import marshal\nmarshal.loads(blob)\n"])
             ref = None
             for label, raw in variants(src):
                 for chan in ("file", "stdin"):
